@@ -3,7 +3,7 @@ import LenaModel.Model.C09
 /-! Model driver for C09.  One request = one element and one history:
   {"el": EL, "ops": [OP, ...]}  ->  {"obs": [OBS, ...]} (+ "prec": n for dsum) | {"init_err": "LenaValueError"|...}
   EL:  {"k":"count","name":s,"count0":i} | {"k":"sum","total0":i} | {"k":"dsum","total0":[coef,exp]}
-     | {"k":"mean","seq":b,"poe":b} | {"k":"vmc","corrected":b,"poe":b} | {"k":"store","group":b} | {"k":"groupby"}
+     | {"k":"mean","seq":b,"poe":b} | {"k":"meand","poe":b} (Mean(DSum()), data [m,e]) | {"k":"vmc","corrected":b,"poe":b} | {"k":"store","group":b} | {"k":"groupby"}
      | {"k":"vec","inner":EL(count|sum|mean|vmc|store),"list":b,"nseq":n,"dim":n|null}
      | {"k":"hist","edges":[i],"bins":[i]|null,"make_bins":[i]|null,"iv":i}
      | {"k":"graph","scale0":i|null,"sort":b,"reset_scale":b}
@@ -123,6 +123,10 @@ def handle (j : Json) : Json :=
     match bool? (getD el "corrected"), bool? (getD el "poe") with
     | some a, some b => runM (vmcM ⟨a, b⟩) (item? int?) (itemJ vmcJ) ops
     | _, _ => err "bad vmc args"
+  | some "meand" =>
+    match bool? (getD el "poe") with
+    | some b => runM (meanDM b) (item? (fun j => (pair? j).map (fun p => (⟨p.1, p.2⟩ : Dy)))) (itemJ ratJ) ops
+    | _ => err "bad meand args"
   | some "store" =>
     match bool? (getD el "group") with
     | some g => runM (storeFilledM (Item Int) g) (item? int?) (storedJ (itemJ ofInt)) ops
